@@ -105,6 +105,18 @@ func genC14(t *rapid.T) *Script {
 			}
 		}
 	}
+	if cfg.Role == "acceptor" && rapid.IntRange(0, 5).Draw(t, "relogonTail") == 0 {
+		// the peer logs out and on again on the same connection, then keeps talking (something every 0.6 N)
+		// for longer than the watchdog's period, then asks: a peer that is alive is answered as before
+		sc.Steps = append(sc.Steps, rig.Step{Op: "in", In: g.logout()}, rig.Step{Op: "in", In: g.goodLogon(g.hb)})
+		T := int64(tolT(g.hb))
+		gap := int64(g.hb) * 6e8
+		for total := int64(0); total <= T+T/5; total += gap {
+			sc.Steps = append(sc.Steps, rig.Step{Op: "advance", Dt: gap}, rig.Step{Op: "in", In: g.heartbeat("")})
+		}
+		id, _ := genTestReqID(t)
+		sc.Steps = append(sc.Steps, rig.Step{Op: "in", In: g.testRequest(id), Kind: "after-relogon"})
+	}
 	sc.MaxHB = g.maxHB
 	return sc
 }
@@ -181,6 +193,9 @@ func checkC14(sc *Script, rec *evid.Rec) (vs []pbt.Violation) {
 		shape += fmt.Sprintf("|%s:%d:%s", st.Op, len(reqs), class)
 		if st.Kind == "while-probing" {
 			rec.Hist("testrequest-while-awaiting-own-probe-answer")
+		}
+		if st.Kind == "after-relogon" {
+			rec.Hist("testrequest-a-period-after-a-second-logon")
 		}
 		if len(hbIdx) != len(reqs) {
 			vs = append(vs, pbt.V("answer-count", "step %d: %d TestRequest(s) received, %d Heartbeat answer(s) emitted:%s", i, len(reqs), len(hbIdx), showOut(res)))
